@@ -185,6 +185,26 @@ def _sourcemap_rules(chk: Check, ctx: Any) -> None:
         pname, rexpr = reader[path]
         rattr = p2a.get(pname)
         key = f"SourceMap:{'/'.join(path)}"
+        if not wattrs:
+            # written from a local list: follow `for y in self.<attr>: [if ...:] local.append(y)`
+            for nm in {n.id for n in ast.walk(writer[path]) if isinstance(n, ast.Name)}:
+                for lp in walk_no_nested(ser.node):
+                    if isinstance(lp, ast.For) and (a0 := astq.self_attr(lp.iter)):
+                        apps = [c for c in ast.walk(lp) if isinstance(c, ast.Call) and isinstance(c.func, ast.Attribute) and c.func.attr == "append"
+                                and isinstance(c.func.value, ast.Name) and c.func.value.id == nm]
+                        if not apps:
+                            continue
+                        conditional = not any(isinstance(st, ast.Expr) and st.value is apps[0] for st in lp.body)
+                        if conditional:
+                            chk.violation("C14-R1", key + ":all-elements", ser,
+                                          f"serialize() writes key {'/'.join(path)} from `{nm}`, a filtered copy of self.{a0} (`{norm(lp)[:80]}`): entries that are "
+                                          "dropped (e.g. equal marks of a macro that is called twice) are missing after deserialize(), so the restored map differs",
+                                          node=lp)
+                        wattrs = {a0}
+        for gen in (writer[path].generators if isinstance(writer[path], (ast.ListComp, ast.DictComp)) else []):
+            if gen.ifs:
+                chk.violation("C14-R1", key + ":all-elements", ser,
+                              f"serialize() filters the table under {'/'.join(path)} (`if {norm(gen.ifs[0])}`): the restored map lacks the filtered entries", node=gen.ifs[0])
         if len(wattrs) != 1 or rattr is None:
             chk.unknown("C14-R1", key, ser, f"cannot relate key {path} to one attribute (writer {wattrs}, reader {rattr})")
             continue
